@@ -22,6 +22,26 @@ fn run(r: &mut Run) -> Result<(), MachineryError> {
     r.space(space, |seq, cx| {
         let text = build(seq, &alpha);
         cx.set_input(&text);
+        check_text(&text, cx);
+    })?;
+    r.range("C17/all-characters-in-context", &format!("{}; each c in the texts \"cc c\", \"ac cb d\" x widths 0..=display width+2, MAX", scalar_desc(t)), scalar_space(t), move |i, cx| {
+        let c = match scalar_at(t, i) {
+            Some(c) => c,
+            None => return,
+        };
+        cx.seq = idx_seq(i);
+        for text in [format!("{c}{c} {c}"), format!("a{c} {c}b d")] {
+            cx.set_input(&text);
+            check_text(&text, cx);
+        }
+    })?;
+    scale::text_scale(r, "C17/long-paragraphs", "C17")
+}
+
+fn check_text(text: &str, cx: &mut Cx) {
+    {
+        let text = text.to_string();
+
         let hi = width_hi(&text, WidthMode::Display, 0);
         for w in (0..=hi).chain([usize::MAX]) {
             cx.eval();
@@ -50,5 +70,5 @@ fn run(r: &mut Run) -> Result<(), MachineryError> {
             let got: Vec<String> = s.split('\n').map(|l| l.trim_end_matches(' ').to_string()).collect();
             cx.check("C17-agrees-with-wrap", got == lines, &d, &|| json!({"after": s, "split_and_trimmed": got, "wrap": lines}));
         }
-    })
+    }
 }
